@@ -22,8 +22,16 @@
                                   walk from a 2-free dart succeeds
   * `C17_markCurve_err_leaves_boundary`  an error is returned only when the walk reaches a vertex without 2-free dart
 
+  * `C17_core_faces_and_boundary_edges_anchored`  without the assertions, for every input anchoring: when the
+                                  three loops end without error every face of an in-use dart and every boundary
+                                  edge (edge of an in-use 2-free dart) is anchored
+  * `C17_boundary_loop_terminates` the loop over boundaries without anchored vertex terminates (fuel never exhausted)
+  * `C17_classify_assertion_can_fire`  the unconditional version of (a) is FALSE on arbitrary well-formed maps
+                                  (dangling edge: vertex left unanchored, the debug assertion panics)
+
   NOT PROVED (see SPEC["not_proved"] of tools/props/c17.py): that the assertions cannot fire on capture
-  outputs; one surface id per connected component; the geometric part of capture.
+  outputs; termination of the face queue; one surface id per connected component; the geometric part of
+  capture.
 -/
 import Honeycomb.Model.Capture
 import Honeycomb.Lemmas.Run
@@ -1109,6 +1117,181 @@ theorem C17_core_faces_and_boundary_edges_anchored {m m' : Map Val} (h : WF 3 m)
     have := classifyLoops_spec m.n (m.n + 1) cid m1 m2 r hw1 g1.topo.n h2 d hd0 hd hu2
       (by rw [← g3.topo.β]; exact hb)
     exact g3.mono sEA d this
+
+/-! ## the second loop terminates -/
+
+def cntE (m : Map Val) : Nat := ((List.range m.n).filter (fun x => (m.att sEA x).isNone)).length
+
+theorem cntE_le (m : Map Val) : cntE m ≤ m.n := by
+  unfold cntE
+  have := List.length_filter_le (fun x => (m.att sEA x).isNone) (List.range m.n)
+  simpa using this
+
+/-- anchors are only added and the slot `e` went from empty to anchored: fewer empty edge slots -/
+theorem cntE_lt {m m' : Map Val} (g : Grow m m') {e : Nat} (he : e < m.n) (h0 : m.att sEA e = none)
+    (h1 : (m'.att sEA e).isSome = true) : cntE m' < cntE m := by
+  unfold cntE
+  rw [g.topo.n]
+  apply filter_len_lt (v := e)
+  · intro x hx
+    cases hm : m.att sEA x with
+    | none => rfl
+    | some v =>
+        have := g.mono sEA x (by rw [hm]; rfl)
+        cases hm' : m'.att sEA x with
+        | none => rw [hm'] at this; cases this
+        | some w => rw [hm'] at hx; cases hx
+  · exact List.mem_range.2 he
+  · rw [h0]; rfl
+  · cases hm' : m'.att sEA e with
+    | none => rw [hm'] at h1; cases h1
+    | some w => rfl
+
+/-- the search of the second loop, when it finds a dart: a non-null 2-free dart with an unanchored edge -/
+theorem findUnmarkedBoundary_some {m : Map Val} (h : WF 3 m) : ∀ (ds : List Nat) (m' : Map Val) (dart : Nat),
+    (∀ d, d ∈ ds → d ≠ 0 ∧ d < m.n) →
+    run (findUnmarkedBoundary m.n ds) m = (.ok (some dart), m') →
+    dart ≠ 0 ∧ dart < m.n ∧ m.β 2 dart = 0 ∧ m.att sEA dart = none := by
+  intro ds
+  induction ds with
+  | nil => intro _ _ _ hr; simp [findUnmarkedBoundary, run] at hr
+  | cons x xs ih =>
+      intro m' dart hds hr
+      have hx := hds x List.mem_cons_self
+      have hxs : ∀ d, d ∈ xs → d ≠ 0 ∧ d < m.n := fun d hd => hds d (List.mem_cons_of_mem _ hd)
+      unfold findUnmarkedBoundary at hr
+      simp only [Prog.bind_eq, run_rU, (h.toSized.okU x).2 hx.2, if_true] at hr
+      by_cases hux : m.unused x = true
+      · simp only [hux, if_true] at hr
+        exact ih m' dart hxs hr
+      · simp only [hux, if_false, Bool.false_eq_true] at hr
+        rw [run_bind, run_freeDart h hx.2] at hr
+        cases hfo : freeOf m x with
+        | none => rw [hfo] at hr; exact ih m' dart hxs hr
+        | some dd =>
+            rw [hfo] at hr
+            simp only at hr
+            obtain ⟨hmem, hb2⟩ := freeOf_some hfo
+            obtain ⟨hdlt, _⟩ := mem_vorb h hx.2 hmem
+            have hd0 : dd ≠ 0 := ((mem_orb h (pol := .vertex) trivial hx.1 hx.2 dd).1 hmem).1
+            rw [run_bind, run_edgeId_free h hdlt hb2] at hr
+            simp only [run_rA] at hr
+            by_cases hok : m.okA sEA dd = true
+            · simp only [hok, if_true] at hr
+              cases hax : m.att sEA dd with
+              | none =>
+                  simp only [hax, Option.isNone_none, if_true, Prog.pure_eq, run_ret, Prod.mk.injEq,
+                    Out.ok.injEq, Option.some.injEq] at hr
+                  obtain ⟨e, _⟩ := hr
+                  subst e
+                  exact ⟨hd0, hdlt, hb2, hax⟩
+              | some v =>
+                  simp only [hax, Option.isNone_some, Bool.false_eq_true, if_false] at hr
+                  exact ih m' dart hxs hr
+            · simp [hok] at hr
+
+/-- on a well-formed map with the anchor storages the search itself always answers -/
+theorem findUnmarkedBoundary_total {m : Map Val} (h : Ok9 m) : ∀ (ds : List Nat),
+    (∀ d, d ∈ ds → d ≠ 0 ∧ d < m.n) → ∃ r, run (findUnmarkedBoundary m.n ds) m = (.ok r, m) := by
+  intro ds
+  induction ds with
+  | nil => intro _; exact ⟨none, rfl⟩
+  | cons x xs ih =>
+      intro hds
+      have hx := hds x List.mem_cons_self
+      have hxs : ∀ d, d ∈ xs → d ≠ 0 ∧ d < m.n := fun d hd => hds d (List.mem_cons_of_mem _ hd)
+      unfold findUnmarkedBoundary
+      simp only [Prog.bind_eq, run_rU, (h.wf.toSized.okU x).2 hx.2, if_true]
+      by_cases hux : m.unused x = true
+      · simp only [hux, if_true]; exact ih hxs
+      · simp only [hux, if_false, Bool.false_eq_true]
+        rw [run_bind, run_freeDart h.wf hx.2]
+        cases hfo : freeOf m x with
+        | none => exact ih hxs
+        | some dd =>
+            simp only
+            obtain ⟨hmem, hb2⟩ := freeOf_some hfo
+            obtain ⟨hdlt, _⟩ := mem_vorb h.wf hx.2 hmem
+            rw [run_bind, run_edgeId_free h.wf hdlt hb2]
+            simp only [run_rA, h.okA (by decide : sEA ≤ 8) hdlt, if_true]
+            cases hax : m.att sEA dd with
+            | none => exact ⟨some dd, by simp⟩
+            | some v =>
+                simp only [Option.isNone_some, Bool.false_eq_true, if_false]
+                exact ih hxs
+
+/-- **C17, the second loop terminates**: on a well-formed 2-map with the anchor storages the loop over
+    the boundaries that are not reachable from an anchored vertex never exhausts its fuel and never
+    panics; it ends with `Ok` or with the `UnsupportedGeometry` of a `mark_curve` call -/
+theorem classifyLoops_terminates : ∀ (f cid : Nat) (m : Map Val), Ok9 m → cntE m < f →
+    (∃ r m', run (classifyLoops m.n f cid) m = (.ok r, m')) ∨
+    (∃ m', run (classifyLoops m.n f cid) m = (.err errUnsupportedGeometry, m')) := by
+  intro f
+  induction f with
+  | zero => intro cid m _ hc; omega
+  | succ f ih =>
+      intro cid m h hc
+      unfold classifyLoops
+      simp only [Prog.bind_eq]
+      obtain ⟨res, hfd⟩ := findUnmarkedBoundary_total h _ (fun d hd => mem_darts.1 hd)
+      rw [run_bind, hfd]
+      cases res with
+      | none =>
+          simp only [Prog.pure_eq, run_ret]
+          exact Or.inl ⟨cid, m, rfl⟩
+      | some dart =>
+          obtain ⟨hd0, hdlt, hb2, hnone⟩ :=
+            findUnmarkedBoundary_some h.wf _ _ _ (fun d hd => mem_darts.1 hd) hfd
+          simp only
+          have hv := vid_lt h.wf hdlt
+          rw [run_bind, run_vid' h.wf hdlt]
+          simp only [run_wA, h.okA (by decide : sVA ≤ 8) hv, if_true]
+          have g1 : Grow m (m.setA sVA (cellId m .vertex dart) (some (vCurve (cid + 1)))) := Grow.setA _ _ _ _
+          have h1 := h.sameTopo g1.topo
+          have hdlt1 : dart < (m.setA sVA (cellId m .vertex dart) (some (vCurve (cid + 1)))).n := hdlt
+          obtain ⟨m2, hres, g2, _, _, hatt⟩ := C17_markCurve_terminates h1.wf h1.st hd0 hdlt1 (cid + 1)
+          have hn1 : (m.setA sVA (cellId m .vertex dart) (some (vCurve (cid + 1)))).n = m.n := rfl
+          rw [hn1] at hres
+          have hcid : cellId (m.setA sVA (cellId m .vertex dart) (some (vCurve (cid + 1)))) .edge dart = dart := by
+            rw [cellId_sameTopo g1.topo, (C03_edgeId2_min h.wf hd0 hdlt).2.2.2, if_pos hb2]
+          rw [hcid] at hatt
+          rw [run_bind]
+          rcases hres with hr | ⟨hr, _⟩
+          · rw [hr]
+            simp only
+            have g12 := g1.trans g2
+            have hlt : cntE m2 < cntE m := cntE_lt g12 hdlt hnone (by rw [hatt]; rfl)
+            have := ih (cid + 1) m2 (h.sameTopo g12.topo) (by omega)
+            rw [g12.topo.n] at this
+            exact this
+          · rw [hr]
+            exact Or.inr ⟨m2, rfl⟩
+
+/-- **C17, the second loop terminates** (the fuel the model gives it, `n_darts + 1`, is never
+    exhausted): `Ok` or the `UnsupportedGeometry` of one of its `mark_curve` calls -/
+theorem C17_boundary_loop_terminates {m : Map Val} (h : WF 3 m) (hst : 8 < m.a.size) (cid : Nat) :
+    (∃ r m', run (classifyLoops m.n (m.n + 1) cid) m = (.ok r, m')) ∨
+    (∃ m', run (classifyLoops m.n (m.n + 1) cid) m = (.err errUnsupportedGeometry, m')) :=
+  classifyLoops_terminates _ cid m ⟨h, hst⟩ (by have := cntE_le m; omega)
+
+/-! ## the assertions are not redundant on arbitrary well-formed maps -/
+
+/-- one edge 1|2 closed on itself (`β1 = β2 = (1 2)`): a face with a dangling edge, two vertices of
+    degree 1, no boundary -/
+def exAnt : Map Val :=
+  { (Map.empty 3 9 3 : Map Val) with b := #[#[0, 2, 1], #[0, 2, 1], #[0, 2, 1]] }
+
+/-- **C17, the unconditional version of (a) is false**: on this well-formed map the three loops end
+    with `Ok`, vertex 2 stays unanchored (its only dart is visited after its edge was anchored from the
+    other side) and the debug assertion fires.  `C17_classify_ok_all_anchored` is therefore stated for
+    the function *with* its assertions; that they cannot fire on capture outputs is validated, not
+    proved. -/
+theorem C17_classify_assertion_can_fire :
+    ∃ m : Map Val, WF 3 m ∧ 8 < m.a.size ∧ (run (classifyCore m.n) m).1 = .ok () ∧
+      ((run (classifyCore m.n) m).2).att sVA 2 = none ∧ m.unused 2 = false ∧
+      cellId m .vertex 2 = 2 ∧ (run (classifyCapture m.n) m).1 = .panic :=
+  ⟨exAnt, by decide, by decide, by decide +kernel, by decide +kernel, by decide, by decide +kernel,
+    by decide +kernel⟩
 
 /-! ## non-vacuity: the hypotheses are satisfiable, the conclusions are not trivial -/
 
